@@ -38,6 +38,32 @@ REW = [
  ('r11-writable-buffer-size_t-min', S + 'archive.h',
   'int readsize = buf.size() < len ? buf.size() : len;\n                load_data((char *)buf.data(), readsize);\n                skip(len - readsize);',
   'size_t readsize = len;\n                if (buf.size() < readsize)\n                    readsize = buf.size();\n                char *dst = buf.data();\n                load_data(dst, (uint16_t)readsize);\n                skip((int)(len - readsize));'),
+ ('r12-map-reader-subscript', S + 'stdtypes.h', 'map.insert(std::make_pair(first, second));', 'map[first] = second;'),
+ ('r13-map-reader-emplace-hint', S + 'stdtypes.h', 'map.insert(std::make_pair(first, second));', 'map.emplace_hint(map.end(), first, second);'),
+ ('r14-vector-reader-resize-then-index', S + 'stdtypes.h',
+  'for (int i = 0; i < size; i++)\n            {\n                T value;\n                igris::deserialize(keeper, value);\n                vec.push_back(value);\n            }',
+  'const size_t old = vec.size();\n            vec.resize(old + size);\n            for (size_t i = old; i < vec.size(); ++i)\n                igris::deserialize(keeper, vec[i]);'),
+ ('r15-string-reader-assign-from-scratch-vector', S + 'stdtypes.h',
+  'str.resize(size);\n            keeper.load_data((char *)str.data(), str.size());',
+  'std::vector<char> tmp(size);\n            keeper.load_data(tmp.data(), (uint16_t)tmp.size());\n            str.assign(tmp.begin(), tmp.end());'),
+ ('r16-buffer-reader-char_traits-copy', S + 'archive.h',
+  'memcpy(dat, ptr, size);\n                ptr += size;\n            }\n\n            void skip',
+  'std::char_traits<char>::copy(dat, ptr, (size_t)size);\n                ptr = ptr + size;\n            }\n\n            void skip'),
+ ('r17-tuple-apply-fold', S + 'stdtypes.h',
+  'static void deserialize(Archive &keeper, Tuple &tpl)\n        {\n            tuple_deserialize_helper(keeper, tpl,\n                                     std::index_sequence_for<Args...>{});\n        }',
+  'static void deserialize(Archive &keeper, Tuple &tpl)\n        {\n            std::apply([&keeper](auto &...member) { (igris::deserialize(keeper, member), ...); }, tpl);\n        }'),
+ ('r18-storage-load-std-min', S + 'serialize_storage.h',
+  'auto len = MIN(size, _storage.size() - cursor);\n            memcpy(data, _storage.data() + cursor, len);\n            cursor += len;',
+  'const size_t left = _storage.size() - cursor;\n            const size_t len = std::min(size, left);\n            const char *from = _storage.data() + cursor;\n            for (size_t k = 0; k < len; ++k)\n                data[k] = from[k];\n            cursor = cursor + len;'),
+ ('r19-load-cstr-switch', S + 'archive.h',
+  'uint16_t readsz = sz > maxsz ? maxsz : sz;',
+  'uint16_t readsz;\n                switch (sz > maxsz ? 1 : 0)\n                {\n                case 1:\n                    readsz = maxsz;\n                    break;\n                default:\n                    readsz = sz;\n                    break;\n                }'),
+ ('r20-vector-writer-for_each-lambda', S + 'stdtypes.h',
+  ['#include <vector>\n\nnamespace igris', 'for (const T &value : vec)\n            {\n                igris::serialize(keeper, value);\n            }'],
+  ['#include <vector>\n#include <algorithm>\n\nnamespace igris', 'std::for_each(vec.cbegin(), vec.cend(), [&keeper](const T &value) { igris::serialize(keeper, value); });']),
+ ('r21-string-writer-append-via-count-then-chars', S + 'archive.h',
+  'dump((uint16_t)buf.size());\n                dump_data(buf.data(), buf.size());\n            }\n\n#if',
+  'const uint16_t n = (uint16_t)buf.size();\n                dump_data((const char *)&n, sizeof(n));\n                for (uint16_t k = 0; k < n; ++k)\n                    dump_data(buf.data() + k, 1);\n            }\n\n#if'),
 ]
 def run():
     r = subprocess.run([sys.executable, DRV, '--fails', '--repo', WT], capture_output=True, text=True)
@@ -57,7 +83,7 @@ def main():
         try:
             r, fails = run()
         finally:
-            subprocess.run(['git', '-C', WT, 'checkout', '--', '.'])
+            subprocess.run(['git', '-C', WT, 'apply', '-R', d])
         print('== %s: exit %d' % (name, r.returncode))
         for l in fails[:4]:
             print('     ' + l[:500])
@@ -69,14 +95,18 @@ def main():
             continue
         p = os.path.join(WT, rel)
         src = open(p).read()
-        if src.count(old) != 1:
-            print('%s: anchor text found %d times - not applied' % (name, src.count(old)))
+        olds, news = (old, new) if isinstance(old, list) else ([old], [new])
+        if any(src.count(o) != 1 for o in olds):
+            print('%s: anchor text found %s times - not applied' % (name, [src.count(o) for o in olds]))
             continue
-        open(p, 'w').write(src.replace(old, new))
+        for o, n_ in zip(olds, news):
+            src = src.replace(o, n_)
+        orig = open(p).read()
+        open(p, 'w').write(src)
         try:
             r, fails = run()
         finally:
-            subprocess.run(['git', '-C', WT, 'checkout', '--', '.'])
+            open(p, 'w').write(orig)       # back to the worktree's state (the proposed fixes stay applied)
         print('== %s: exit %d' % (name, r.returncode))
         for l in fails[:4]:
             print('     ' + l[:600])
